@@ -392,6 +392,26 @@ pub fn run(ctx: &Ctx) -> Report {
     }
   }
   // `create --link` prints the link of what it would write, also under --dry-run
+  // every selected index is carried, whether or not the torrent has that many files
+  {
+    let sb = Sandbox::new(&ctx.work, "c10f");
+    let files = B::List((0..3).map(|i| B::dict(vec![("length", B::Int(1)), ("path", B::List(vec![B::s(&format!("f{i}"))]))])).collect());
+    let info = B::dict(vec![("name", B::s("three")), ("piece length", B::Int(16384)), ("pieces", B::Bytes(vec![7; 20])), ("files", files)]);
+    sb.write("t.torrent", &B::dict(vec![("info", info.clone())]).encode());
+    let out = Cmd::new(&ctx.imdl, &["torrent", "link", "--input", "t.torrent", "--select-only", "0,2,3,7", "--select-only", "5"]).cwd(&sb.root).run();
+    let case = json!({"cli": "torrent link", "select_only": "0,2,3,7 and 5 on a torrent of three files"});
+    report.case(Some(fnv_str(&case.to_string())));
+    report.hit("cli:torrent-link");
+    let so = out.stdout_s();
+    let uri = so.strip_suffix('\n').unwrap_or(&so);
+    let c = Case { infohash: sha1::Sha1::from(info.encode()).digest().bytes(), name: Some("three".into()), trackers: vec![], peers: vec![], indices: vec![0, 2, 3, 7, 5] };
+    let want = expected(&c, &[], &[]);
+    if !out.ok() {
+      report.fail("property", "link-failed", case, out.stderr_s());
+    } else if let Some(d) = judge_uri(uri, &want) {
+      report.fail("property", "magnet-uri-decodes-wrong", case, format!("`torrent link` printed `{uri}`: {d}"));
+    }
+  }
   // a tracker named more than once on the command line is still one tracker
   {
     let sb = Sandbox::new(&ctx.work, "c10e");
